@@ -47,39 +47,6 @@ func safely[T any](f func() (T, error)) (v T, err error) {
 	return f()
 }
 
-// checkExactIn: out ≤ Bo·(1−(Bi/(Bi+Ai(1−f)))^(wi/wo)) + tol, decided exactly with integer powers.
-func checkExactInBound(bi, bo sdkmath.Int, wi, wo int64, fee sdkmath.LegacyDec, ain, out sdkmath.Int) string {
-	g := gcd64(wi, wo)
-	wi, wo = wi/g, wo/g
-	tol := tolFor(bo, wi == wo)
-	ainAfterFee := new(big.Rat).Mul(ratFromInt(ain), new(big.Rat).Sub(big.NewRat(1, 1), ratFromDec(fee)))
-	r := new(big.Rat).Quo(ratFromInt(bi), new(big.Rat).Add(ratFromInt(bi), ainAfterFee)) // Bi/(Bi+Ai')
-	left := new(big.Int).Add(new(big.Int).Sub(bo.BigInt(), out.BigInt()), tol)
-	if left.Sign() <= 0 {
-		return fmt.Sprintf("exact-in: out %s is not below the reserve %s", out, bo)
-	}
-	lhs := ratPow(new(big.Rat).Quo(new(big.Rat).SetInt(left), ratFromInt(bo)), wo)
-	rhs := ratPow(r, wi)
-	if lhs.Cmp(rhs) < 0 {
-		return fmt.Sprintf("exact-in pays more than the weighted-product formula allows: reserves in=%s out=%s weights %d:%d fee %s amount in %s -> out %s (allowance %s)", bi, bo, wi, wo, fee, ain, out, tol)
-	}
-	return ""
-}
-
-// checkExactOutBound: in·(1−f) + tol ≥ Bi·((Bo/(Bo−Ao))^(wo/wi) − 1)
-func checkExactOutBound(bi, bo sdkmath.Int, wi, wo int64, fee sdkmath.LegacyDec, aout, in sdkmath.Int) string {
-	g := gcd64(wi, wo)
-	wi, wo = wi/g, wo/g
-	inAfterFee := new(big.Rat).Mul(ratFromInt(in), new(big.Rat).Sub(big.NewRat(1, 1), ratFromDec(fee)))
-	tol := tolForBig(new(big.Int).Add(bi.BigInt(), in.BigInt()), wi == wo)
-	lhsBase := new(big.Rat).Quo(new(big.Rat).Add(new(big.Rat).Add(inAfterFee, new(big.Rat).SetInt(tol)), ratFromInt(bi)), ratFromInt(bi))
-	rhsBase := new(big.Rat).Quo(ratFromInt(bo), ratFromInt(bo.Sub(aout)))
-	if ratPow(lhsBase, wi).Cmp(ratPow(rhsBase, wo)) < 0 {
-		return fmt.Sprintf("exact-out charges less than the weighted-product formula requires: reserves in=%s out=%s weights %d:%d fee %s amount out %s -> in %s (allowance %s)", bi, bo, wi, wo, fee, aout, in, tol)
-	}
-	return ""
-}
-
 func calcOut(p ammtypes.Pool, inDenom, outDenom string, ain sdkmath.Int, fee sdkmath.LegacyDec) (sdkmath.Int, error) {
 	c, err := safely(func() (sdk.Coin, error) {
 		snap := p
